@@ -213,10 +213,24 @@ fn root_undefined(m: &mut M) -> bool {
 fn field_undefined(m: &mut M) -> bool {
     let fs = m.sites.fields.clone();
     let Some(site) = pick(m.c, &fs).cloned() else { return false };
-    let other = m.c.coin();
+    let mode = m.c.choose(4);
     let f = field_mut(m.doc, &site.path);
-    // either an unknown name or a name that exists on some other type only
-    f.name = if other && site.parent != "__Type" { "ofType".into() } else { "zzz".into() };
+    // an unknown name, a name that exists on some other type only, or a root meta-field used
+    // where it does not exist (anywhere but directly on the query root type)
+    match mode {
+        1 if site.parent != "__Type" => f.name = "ofType".into(),
+        2 => {
+            f.name = "__schema".into();
+            f.args.clear();
+            f.selection_set = vec![typename()];
+        }
+        3 => {
+            f.name = "__type".into();
+            f.args = vec![("name".into(), Value::str("Query"))];
+            f.selection_set = vec![typename()];
+        }
+        _ => f.name = "zzz".into(),
+    }
     true
 }
 
@@ -689,12 +703,12 @@ fn wrong_literal(c: &mut Choices, named: &str, s: &RefSchema) -> Option<Value> {
     let kind = s.kind(named)?;
     let opts: Vec<Value> = match (named, kind) {
         ("Int", _) => vec![Value::str("1"), Value::Float("1.5".into()), Value::Bool(true), Value::Enum("RED".into()), Value::Object(vec![])],
-        ("Float", _) => vec![Value::str("1.5"), Value::Bool(false), Value::Enum("NaN".into())],
-        ("String", _) => vec![Value::Int("1".into()), Value::Bool(true), Value::Enum("abc".into()), Value::Float("0.5".into())],
-        ("Boolean", _) => vec![Value::Int("1".into()), Value::str("true"), Value::Enum("TRUE".into())],
-        ("ID", _) => vec![Value::Float("1.5".into()), Value::Bool(true), Value::Enum("abc".into())],
-        (_, TypeKind::Enum) => vec![Value::str("RED"), Value::Int("0".into()), Value::Enum("NOT_A_VALUE".into()), Value::Bool(true)],
-        (_, TypeKind::InputObject) => vec![Value::Int("1".into()), Value::str("{}"), Value::Enum("abc".into()), Value::Bool(false)],
+        ("Float", _) => vec![Value::str("1.5"), Value::Bool(false), Value::Enum("NaN".into()), Value::Object(vec![("a".into(), Value::Int("1".into()))])],
+        ("String", _) => vec![Value::Int("1".into()), Value::Bool(true), Value::Enum("abc".into()), Value::Float("0.5".into()), Value::Object(vec![])],
+        ("Boolean", _) => vec![Value::Int("1".into()), Value::str("true"), Value::Enum("TRUE".into()), Value::Float("1.0".into()), Value::Object(vec![])],
+        ("ID", _) => vec![Value::Float("1.5".into()), Value::Bool(true), Value::Enum("abc".into()), Value::Object(vec![])],
+        (_, TypeKind::Enum) => vec![Value::str("RED"), Value::Int("0".into()), Value::Enum("NOT_A_VALUE".into()), Value::Bool(true), Value::Float("0.5".into()), Value::Object(vec![])],
+        (_, TypeKind::InputObject) => vec![Value::Int("1".into()), Value::str("{}"), Value::Enum("abc".into()), Value::Bool(false), Value::Float("2.5".into())],
         _ => return None,
     };
     Some(opts[c.choose(opts.len())].clone())
